@@ -510,3 +510,87 @@ def rule_greens_function(rep: Report, repo: Repo):
     fresh = [s for s in own_nodes(cm) if isinstance(s, ast.Assign) and norm(s.targets[0]) == "constrained"]
     rep.check(len(fresh) == 1 and norm(fresh[0].value) == "sparse.csr_array(mat)", R,
               "linalg::_constrain_matrix works on its own csr copy", "", repo.loc("linalg", cm))
+
+
+# ---------------------------------------------------------------------------
+# second-quantised scalar Sylvester solver (operator identity clause of C16)
+# ---------------------------------------------------------------------------
+
+
+def rule_solve_scalar(rep: Report, repo: Repo):
+    """H_ii V - V H_jj = Y term by term:  H_ii(N) (a†)^m v(N) a^p - (a†)^m v(N) a^p H_jj(N)
+    = (a†)^m [H_ii(N + m) - H_jj(N + p)] v(N) a^p   (fermions/spins: N -> 1 on the side that carries the operator)."""
+    R = "E7.solve_scalar"
+    f = repo.find("second_quantization::solve_scalar", R)
+    loc = lambda n: repo.loc("second_quantization", n)
+    asg = {}
+    for n in own_nodes(f):
+        if isinstance(n, ast.Assign) and isinstance(n.targets[0], ast.Name):
+            asg.setdefault(n.targets[0].id, []).append(n)
+    def shift_info(name):
+        a = asg.get(name, [])
+        if len(a) != 1:
+            return None
+        v = a[0].value
+        if not (isinstance(v, ast.Call) and isinstance(v.func, ast.Attribute) and v.func.attr == "xreplace"
+                and len(v.args) == 1 and isinstance(v.args[0], ast.DictComp)):
+            return None
+        dc = v.args[0]
+        gen = dc.generators[0]
+        tnames = [norm(e) for e in gen.target.elts] if isinstance(gen.target, ast.Tuple) else []
+        if norm(gen.iter) != "zip(shift, operators)" or len(tnames) != 2:
+            return None
+        delta, op = tnames
+        filt = [norm(c) for c in gen.ifs]
+        val = dc.value
+        if not isinstance(val, ast.IfExp):
+            return None
+        inf_arm, bin_arm = val.body, val.orelse
+        if "isinstance(op, (BosonOp, LadderOp))" not in norm(val.test).replace(op, "op"):
+            return None
+        sign = None
+        if isinstance(inf_arm, ast.BinOp) and norm(inf_arm.right) == delta and norm(inf_arm.left) == norm(dc.key):
+            sign = "+" if isinstance(inf_arm.op, ast.Add) else "-" if isinstance(inf_arm.op, ast.Sub) else None
+        return {"base": norm(v.func.value), "filter": [c.replace(delta, "delta") for c in filt], "sign": sign, "binary": norm(bin_arm), "node": a[0]}
+    jj, ii = shift_info("shifted_H_jj"), shift_info("shifted_H_ii")
+    ok = jj is not None and jj["base"] == "H_jj" and jj["filter"] == ["delta > 0"] and jj["sign"] == "+" and jj["binary"] in ("sympy.S.One", "One")
+    rep.check(ok, R, "second_quantization::solve_scalar annihilation powers (delta > 0) shift H_jj by N -> N + delta (binary modes -> 1)",
+              str({k: v for k, v in (jj or {}).items() if k != "node"}), loc(jj["node"] if jj else f))
+    ok = ii is not None and ii["base"] == "H_ii" and ii["filter"] == ["delta < 0"] and ii["sign"] == "-" and ii["binary"] in ("sympy.S.One", "One")
+    rep.check(ok, R, "second_quantization::solve_scalar creation powers (delta < 0) shift H_ii by N -> N - delta (binary modes -> 1)",
+              str({k: v for k, v in (ii or {}).items() if k != "node"}), loc(ii["node"] if ii else f))
+    # sign-invariant denominator
+    den = asg.get("denominator", [])
+    branch = [n for n in own_nodes(f) if isinstance(n, ast.If) and norm(n.test) in ("sign is sympy.S.One", "sign == sympy.S.One", "sign is One")]
+    ok = False
+    if len(branch) == 1 and branch[0].orelse:
+        pos = [norm(s.value) for s in branch[0].body if isinstance(s, ast.Assign) and norm(s.targets[0]) == "denominator"]
+        neg = [norm(s.value) for s in branch[0].orelse if isinstance(s, ast.Assign) and norm(s.targets[0]) == "denominator"]
+        ok = pos == ["shifted_H_ii - shifted_H_jj"] and neg == ["shifted_H_jj - shifted_H_ii"]
+    rep.check(ok, R, "second_quantization::solve_scalar denominator is sign * (H_ii' - H_jj')", "", loc(branch[0] if branch else f))
+    st = [n for n in own_nodes(f) if isinstance(n, ast.Assign) and norm(n.targets[0]) == "new_shifts[shift]"]
+    ok = len(st) == 1 and norm(st[0].value) in ("sign * denominator ** (-sympy.S.One) * coeff", "sign * coeff / denominator", "sign * coeff * denominator ** (-sympy.S.One)")
+    rep.check(ok, R, "second_quantization::solve_scalar solution coefficient = sign * coeff / denominator = coeff / (H_ii' - H_jj')",
+              norm(st[0].value) if st else "", loc(st[0] if st else f))
+    sg = asg.get("sign", [])
+    ok = len(sg) == 1 and norm(sg[0].value) in ("-sympy.S.One if tuple(shift) < (0,) * len(shift) else sympy.S.One",)
+    rep.check(ok, R, "second_quantization::solve_scalar `sign` only takes the values +1 / -1", norm(sg[0].value) if sg else "", loc(f))
+    # diagonal shortcut: only lexicographically negative shifts are solved, the rest is minus the adjoint
+    sk = [n for n in own_nodes(f) if isinstance(n, ast.If) and norm(n.test) == "diagonal and sign is sympy.S.One"]
+    fin = [n for n in own_nodes(f) if isinstance(n, ast.If) and norm(n.test) == "diagonal"]
+    ok = len(sk) == 1 and isinstance(sk[0].body[0], ast.Continue) and len(fin) == 1 and norm(fin[0].body[0]) == "result -= result.adjoint()"
+    rep.check(ok, R, "second_quantization::solve_scalar diagonal entries: solve half of the terms, complete with minus the adjoint (anti-Hermitian solution)",
+              "", loc(f))
+    # the matrix wrapper: element (i, j) uses eigs_A[i], eigs_B[j]; lower triangle of diagonal blocks = -adjoint of upper
+    w = repo.find("second_quantization::solve_sylvester_2nd_quant", R)
+    inner = [d for d in nested_defs(w) if d.name == "solve_sylvester"][0]
+    calls = [c for c in ast.walk(inner) if isinstance(c, ast.Call) and call_name(c) == "solve_scalar"]
+    ok = len(calls) == 1 and [norm(a) for a in calls[0].args] == ["Y[i, j]", "eigs_A[i]", "eigs_B[j]"] and \
+        {k.arg: norm(k.value) for k in calls[0].keywords} == {"diagonal": "i == j and index[0] == index[1]"}
+    rep.check(ok, R, "second_quantization::solve_sylvester_2nd_quant element (i, j) is solved with H_ii = eigs_A[i], H_jj = eigs_B[j]", "", loc(inner))
+    e = [norm(n.value) for n in own_nodes(inner) if isinstance(n, ast.Assign) and isinstance(n.targets[0], ast.Tuple) and norm(n.targets[0]) == "(eigs_A, eigs_B)"]
+    rep.check(e == ["(eigs[index[0]], eigs[index[1]])"], R, "second_quantization::solve_sylvester_2nd_quant eigs_A, eigs_B = eigs[index[0]], eigs[index[1]]", str(e), loc(inner))
+    fill = [n for n in own_nodes(inner) if isinstance(n, ast.Assign) and norm(n.targets[0]) == "result[i, j]" and "adjoint" in norm(n.value)]
+    ok = len(fill) == 1 and norm(fill[0].value) == "-result[j, i].adjoint()" and isinstance(fill[0]._parent, ast.If) \
+        and norm(fill[0]._parent.test) == "index[0] == index[1] and i < j"
+    rep.check(ok, R, "second_quantization::solve_sylvester_2nd_quant upper triangle of a diagonal block = minus the adjoint of the computed lower triangle", "", loc(inner))
